@@ -7,7 +7,8 @@
      gc <fuel> <heap> <roots>           full collection from the roots
      pinned <fuel> <heap> <roots>       the collector without the ephemeron fixpoint
      after <fuel> <heap> <marked>       phases after marking from a given mark set (comma separated addrs)
-     hist <nslots> <fuel> <ops>         ops := op (';' op)*, op := K,i | C,i,a,b | E,i,k,v | D,i | G | O,i | F,i | P,i,f | X,i
+     hist <nslots> <fuel> <ops>         ops := op (';' op)*, op := K,i | C,i,a,b | E,i,k,v | D,i | G | O,i | F,i | P,i,f | X,i | ... (see op_of)
+     nhist <nslots> <fuel> <ops>        the same on the number-level machine (coq/C16/NumOs.v), plus YN,i (raw close)
    answers:
      OK <retained addrs> <weak objects: addr:weak:extra:broken;...> <close log> <ports/filenos: addr:Pon | addr:Fon:fd:count;...>  | ERR fuel *)
 open Model
@@ -204,6 +205,106 @@ let hist nslots fuel ops =
    | Some k -> "DOMAIN " ^ string_of_int k        (* op number k works on the number of a fileno that is already closed *)
    | None -> "OK " ^ String.concat "/" (List.rev !out))
 
+
+(* ---- number-level histories (coq/C16/NumOs.v): objects hold descriptor numbers, the OS table maps numbers to instances.
+   nhist <nslots> <fuel> <ops>: the ops of hist plus YN,i = (close-file-descriptor N) with N the integer held by fileno R[i].
+   Observations: as hist, with fds = number of open numbers, and an owner counts as open ("o") only if, besides being open at
+   the object level, its number is open in the table and names the instance that was opened for it. *)
+let nop_of s =
+  match String.split_on_char ',' s with
+  | ["YN"; i] -> [NRawClose (nat_of_int (int_of_string i))]
+  | _ -> List.map (fun o -> NOp o) (op_of s)
+
+let owner_addr (st : state) (r : Model.ref) : (Model.addr * z) option =
+  (* the object that owns the descriptor R's object works on, and the number it holds *)
+  match r with
+  | Imm -> None
+  | Ptr a ->
+    (match PositiveMap.find a st.hp.objs with
+     | Some o ->
+       (match o.kind with
+        | KFileno (_, _, fd, _) -> Some (a, fd)
+        | KPort (_, _, Some fd) -> Some (a, fd)
+        | KPort (_, _, None) ->
+          (match o.strong with
+           | [_; _; Ptr f] -> (match PositiveMap.find f st.hp.objs with
+               | Some fo -> (match fo.kind with KFileno (_, _, fd, _) -> Some (f, fd) | _ -> None)
+               | None -> None)
+           | _ -> None)
+        | KPlain -> None)
+     | None -> None)
+
+(* the instance a slot's owner number named when the slot was assigned (the harness records /proc/self/fd/<number> then) *)
+let slot_inst : (int, z) Hashtbl.t = Hashtbl.create 16
+
+let nowner_state (ns : nstate) (i : int) (r : Model.ref) : string option =
+  match owner_state ns.ist i r with
+  | None -> None
+  | Some t ->
+    let objopen = t.[String.length t - 1] = 'o' in
+    let numok = (match owner_addr ns.ist r with
+        | Some (_, n) -> (match names ns n, Hashtbl.find_opt slot_inst i with
+            | Some inst, Some inst0 -> inst = inst0
+            | _, _ -> false)
+        | None -> false) in
+    Some (string_of_int i ^ ":" ^ (if objopen && numok then "o" else "c"))
+
+let record_slots (before : nstate) (after : nstate) (raw : string) =
+  let relink = (match String.split_on_char ',' raw with
+      | ["T"; a; b] | ["R"; a; b] ->
+        (* the harness re-reads the link of every slot on b's number, when both arguments are fileno objects *)
+        let fileno_num x = (match List.nth_opt after.ist.slots (int_of_string x) |> Option.value ~default:Imm with
+            | Ptr p -> (match PositiveMap.find p after.ist.hp.objs with
+                | Some o -> (match o.kind with KFileno (_, _, fd, _) -> Some fd | _ -> None)
+                | None -> None)
+            | Imm -> None) in
+        (match fileno_num a, fileno_num b with Some _, Some nb -> Some nb | _, _ -> None)
+      | _ -> None) in
+  List.iteri (fun i r ->
+      let old = List.nth_opt before.ist.slots i |> Option.value ~default:Imm in
+      let num = (match owner_addr after.ist r with Some (_, n) -> Some n | None -> None) in
+      let changed = (r <> old) || (match relink, num with Some nb, Some n -> nb = n | _ -> false) in
+      if changed then
+        (match num with
+         | Some n -> (match names after n with Some inst -> Hashtbl.replace slot_inst i inst | None -> Hashtbl.remove slot_inst i)
+         | None -> Hashtbl.remove slot_inst i)) after.ist.slots
+
+let nobserve (ns : nstate) : string =
+  let base = observe ns.ist in
+  let eph = List.hd (String.split_on_char '|' base) in
+  let own = List.concat (List.mapi (fun i r -> match nowner_state ns i r with Some x -> [x] | None -> []) ns.ist.slots) in
+  eph ^ "|fds=" ^ string_of_int (List.length ns.tab) ^ "|rel=" ^ string_of_int (List.length ns.rel) ^ ":ebadf=" ^ string_of_int (int_of_nat ns.ebadf)
+  ^ "|own=" ^ String.concat "," own
+
+let nhist nslots fuel ops =
+  let ns = ref (ninit (nat_of_int nslots) (nat_of_int_tr fuel)) in
+  Hashtbl.reset imm_of_slot; Hashtbl.reset eph_imm; Hashtbl.reset slot_inst;
+  let out = ref [] in
+  (try
+     List.iter (fun (raw, os) ->
+         let before = !ns in
+         (match String.split_on_char ',' raw with
+          | ["Z"; i; j] ->
+            let sl x = let x = int_of_string x in
+              match nowner_state !ns x (List.nth_opt !ns.ist.slots x |> Option.value ~default:Imm) with
+              | Some t -> String.sub t (String.length t - 1) 1 | None -> "-" in
+            out := ("Z" ^ sl i ^ sl j) :: !out
+          | ["E"; _; kk; vv] ->
+            let code x = try Hashtbl.find imm_of_slot (int_of_string x) with Not_found -> 0 in
+            Hashtbl.replace eph_imm (hex_of_addr !ns.ist.next) (code kk, code vv)
+          | _ -> ());
+         List.iter (fun o ->
+             match nstep o !ns with
+             | None -> out := "ERRFUEL" :: !out; raise Exit
+             | Some s -> ns := s; (match o with NOp OGc -> out := nobserve s :: !out | _ -> ())) os;
+         forget_overwritten !ns.ist raw;
+         (match String.split_on_char ',' raw with
+          | ["I"; i; c] -> Hashtbl.replace imm_of_slot (int_of_string i) (int_of_string c)
+          | _ -> ());
+         record_slots before !ns raw) ops
+   with Exit -> ());
+  "OK " ^ String.concat "/" (List.rev !out)
+
 let handle = function
   | ["gc"; fuel; hp; roots] ->
     let f = nat_of_int_tr (int_of_string fuel) in
@@ -216,6 +317,8 @@ let handle = function
     answer (gc_after_mark f f (heap_of hp) (mset_of marked) [])
   | ["hist"; nslots; fuel; ops] ->
     hist (int_of_string nslots) (int_of_string fuel) (List.map (fun r -> (r, op_of r)) (String.split_on_char ';' ops))
+  | ["nhist"; nslots; fuel; ops] ->
+    nhist (int_of_string nslots) (int_of_string fuel) (List.map (fun r -> (r, nop_of r)) (String.split_on_char ';' ops))
   | f -> "ERR unknown request " ^ (match f with x :: _ -> x | [] -> "")
 
 let () = serve handle
